@@ -13,7 +13,9 @@ package offset
 //@   ghost saved bool = false
 //@   ghost synced bool = false
 //@   ensures result == nil ==> created && saved && synced
+//@   ghost gtmp seq = ""
 //@   callee Create(name) (f, err)
+//@     requires name == gtmp
 //@     pure
 //@     set created := err == nil
 //@   callee Save(w) (err)
@@ -24,24 +26,40 @@ package offset
 //@     requires saved
 //@     pure
 //@     set synced := err == nil
-//@   callee getTmpPath()
+//@   callee getTmpPath() (r)
 //@     pure
+//@     set gtmp := r
 //@   callee Close()
 //@     pure
+
+// (C07 "always a loadable snapshot": the offsets file itself changes in one way only - the
+// rename of a completely written and synced temp file onto it.  Save reports success only
+// after that rename, renames the temp path onto the real path, and never creates or writes
+// a file itself - whether or not the offsets file exists yet: guard clauses.)
 
 //@ func (*Offset).Save
 //@   option check-nil yes
 //@   ghost ok bool = false
 //@   ghost nrename int = 0
+//@   ghost gtmp seq = ""
 //@   ensures nrename <= 1 && (nrename == 1 ==> ok)
+//@   ensures isnil(result) ==> nrename == 1
+//@   callee Create(name) (f, err)
+//@     requires false
+//@   callee OpenFile(name, flag, perm) (f, err)
+//@     requires false
+//@   callee WriteFile(name, data, perm) (err)
+//@     requires false
 //@   callee saveToTmp() (err)
 //@     set ok := err == nil
 //@   callee Rename(a, b) (err)
 //@     requires ok && nrename == 0
+//@     requires a == gtmp && b == o.path
 //@     pure
 //@     set nrename := nrename + 1
-//@   callee getTmpPath()
+//@   callee getTmpPath() (r)
 //@     pure
+//@     set gtmp := r
 
 // Load reads the committed snapshot only: the one file it opens is o.path (never the
 // temporary file, which is by construction the not-yet-complete snapshot), and it is
